@@ -1112,13 +1112,13 @@ func checkC06ArgHandles(c *Ctx) {
 			}
 		})
 		for _, src := range srcs {
-			val := map[ssa.Value]bool{src: true}    // values that are / contain references into the argument
-			shared := map[ssa.Value]bool{}          // addresses inside the argument's memory
-			holds := map[*ssa.Alloc]bool{}          // local cells holding such a value
-			fresh := map[ssa.Value]bool{}           // *DB / *Statement of an instance DERIVED from the argument (getInstance, Session, ...): the structs are new ...
-			freshAddr := map[ssa.Value]bool{}       // ... field addresses in them ...
-			semi := map[ssa.Value]bool{}            // ... their maps and slices are copies, but the ELEMENTS are still the argument's (Statement.clone is shallow below the containers)
-			local := map[ssa.Value]bool{}           // addresses inside such local cells
+			val := map[ssa.Value]bool{src: true} // values that are / contain references into the argument
+			shared := map[ssa.Value]bool{}       // addresses inside the argument's memory
+			holds := map[*ssa.Alloc]bool{}       // local cells holding such a value
+			fresh := map[ssa.Value]bool{}        // *DB / *Statement of an instance DERIVED from the argument (getInstance, Session, ...): the structs are new ...
+			freshAddr := map[ssa.Value]bool{}    // ... field addresses in them ...
+			semi := map[ssa.Value]bool{}         // ... their maps and slices are copies, but the ELEMENTS are still the argument's (Statement.clone is shallow below the containers)
+			local := map[ssa.Value]bool{}        // addresses inside such local cells
 			var bad []string
 			badPos := token.NoPos
 			note := func(pos token.Pos, s string) {
@@ -1654,4 +1654,213 @@ func checkC16KeyAll(c *Ctx) {
 	if n == 0 {
 		r.Bad(f.Name(), "key condition", f.Body.Pos(), "ConvertToAssignments no longer adds the model's key as a condition; rule lost its anchor")
 	}
+}
+
+// ---- round 8 ----
+
+// C01.join-conds: the arguments given to Joins(query, args...) are the values of the `?` in the join's raw SQL;
+// they reach the statement only through join.Conds (expanded and bound when the join is built).  Decided by
+// path enumeration of chainable_api.joins: on every path that appends a join record, the record's Conds is the
+// variadic parameter - set in the literal or assigned before the append.
+func checkC01JoinConds(c *Ctx) {
+	p := c.P
+	r := c.Rule("C01.join-conds", "every join record appended by Joins carries the caller's arguments in Conds, on every path", 2)
+	f := p.FuncDecl(pkgGorm, "joins")
+	c.Touch(f)
+	info := f.Pkg.TypesInfo
+	joinT := p.Named(pkgGorm, "join")
+	joinsF := p.Field(p.Named(pkgGorm, "Statement"), "Joins")
+	// the variadic parameter
+	var args types.Object
+	if ps := f.Decl.Type.Params.List; len(ps) > 0 {
+		last := ps[len(ps)-1]
+		if _, ok := last.Type.(*ast.Ellipsis); ok && len(last.Names) == 1 {
+			args = info.Defs[last.Names[0]]
+		}
+	}
+	if args == nil {
+		r.Unknown(f.Name(), "shape", f.Body.Pos(), "joins has no variadic parameter")
+		return
+	}
+	isArgs := func(e ast.Expr) bool {
+		id, ok := unparen(e).(*ast.Ident)
+		return ok && info.Uses[id] == args
+	}
+	setsConds := func(n ast.Node) bool {
+		found := false
+		ast.Inspect(n, func(x ast.Node) bool {
+			switch y := x.(type) {
+			case *ast.CompositeLit:
+				if derefNamed(info.TypeOf(y)) == joinT {
+					if v := compositeField(y, "Conds"); v != nil && isArgs(v) {
+						found = true
+					}
+				}
+			case *ast.AssignStmt:
+				for i, l := range y.Lhs {
+					if sel, ok := unparen(l).(*ast.SelectorExpr); ok && sel.Sel.Name == "Conds" && i < len(y.Rhs) && isArgs(y.Rhs[i]) {
+						if derefNamed(info.TypeOf(sel.X)) == joinT {
+							found = true
+						}
+					}
+				}
+			}
+			return true
+		})
+		return found
+	}
+	var appends []ast.Node
+	ast.Inspect(f.Body, func(n ast.Node) bool {
+		as, ok := n.(*ast.AssignStmt)
+		if !ok || len(as.Lhs) != 1 || len(as.Rhs) != 1 {
+			return true
+		}
+		if sel, ok := unparen(as.Lhs[0]).(*ast.SelectorExpr); ok && fieldSel(info, sel, joinsF) {
+			if ce, ok := unparen(as.Rhs[0]).(*ast.CallExpr); ok {
+				if id, ok := ce.Fun.(*ast.Ident); ok && id.Name == "append" {
+					appends = append(appends, as)
+				}
+			}
+		}
+		return true
+	})
+	if len(appends) == 0 {
+		r.Bad(f.Name(), "join records", f.Body.Pos(), "joins no longer appends to Statement.Joins; rule lost its anchor")
+		return
+	}
+	paths, ok := p.EnumPaths(f, nil, 5000)
+	if !ok {
+		r.Unknown(f.Name(), "paths", f.Body.Pos(), "too many paths")
+		return
+	}
+	for _, ap := range appends {
+		bad, seen := 0, 0
+		for _, pr := range paths {
+			at := -1
+			for i, nd := range pr.Nodes {
+				if nd == ap || containsNode(nd, ap) {
+					at = i
+				}
+			}
+			if at < 0 {
+				continue
+			}
+			seen++
+			okp := false
+			for _, nd := range pr.Nodes[:at+1] {
+				if setsConds(nd) {
+					okp = true
+				}
+			}
+			if !okp {
+				bad++
+			}
+		}
+		r.Check(bad == 0 && seen > 0, f.Name(), "join record carries Conds", ap.Pos(), "Conds: args on every path to the append", "a join record is appended on a path where its Conds was not set to the caller's arguments: the `?` of the join's SQL are not expanded and the values (e.g. those of a sub-query handle) are never bound - later values shift onto its placeholders")
+	}
+}
+
+// C02.not-unwrap: clause.Not(...) may replace its argument list by the members of a single group only when the
+// group joins its members with the connective NotConditions.Build puts between members that have no negation
+// of their own (AND): Not(And(a, b)) = NOT (a AND b).  Unwrapping an OrConditions the same way renders
+// NOT (a AND b) for NOT (a OR b).  Decided: every assignment to the parameter in clause.Not is guarded by a type
+// test for AndConditions only.
+func checkC02NotUnwrap(c *Ctx) {
+	p := c.P
+	r := c.Rule("C02.not-unwrap", "clause.Not unwraps only an AndConditions group (the connective NotConditions.Build writes between plain members)", 1)
+	f := p.FuncDecl(pkgClause, "Not")
+	c.Touch(f)
+	info := f.Pkg.TypesInfo
+	andT := p.Named(pkgClause, "AndConditions")
+	var param types.Object
+	if ps := f.Decl.Type.Params.List; len(ps) == 1 && len(ps[0].Names) == 1 {
+		param = info.Defs[ps[0].Names[0]]
+	}
+	parents := parentMap(f.Body)
+	n := 0
+	ast.Inspect(f.Body, func(x ast.Node) bool {
+		as, ok := x.(*ast.AssignStmt)
+		if !ok {
+			return true
+		}
+		for _, l := range as.Lhs {
+			id, ok := unparen(l).(*ast.Ident)
+			if !ok || info.Uses[id] != param {
+				continue
+			}
+			n++
+			// the enclosing type test
+			var tested []types.Type
+			for cur := parents[as]; cur != nil && len(tested) == 0; cur = parents[cur] {
+				switch y := cur.(type) {
+				case *ast.CaseClause:
+					if _, isTS := parents[parents[cur]].(*ast.TypeSwitchStmt); isTS {
+						for _, te := range y.List {
+							tested = append(tested, info.TypeOf(te))
+						}
+					}
+				case *ast.IfStmt:
+					if y.Body.Pos() <= as.Pos() && as.End() <= y.Body.End() {
+						ast.Inspect(y, func(m ast.Node) bool {
+							if ta, ok := m.(*ast.TypeAssertExpr); ok && ta.Type != nil && m.Pos() < y.Body.Pos() {
+								tested = append(tested, info.TypeOf(ta.Type))
+							}
+							return true
+						})
+					}
+				}
+			}
+			okT := len(tested) > 0
+			var names []string
+			for _, t := range tested {
+				names = append(names, types.TypeString(t, func(*types.Package) string { return "" }))
+				if !types.Identical(t, andT) {
+					okT = false
+				}
+			}
+			r.Check(okT, f.Name(), "argument list replaced by a group's members", as.Pos(), "only for AndConditions", "clause.Not unwraps a group of type {"+strings.Join(names, ", ")+"}: NotConditions.Build joins plain members with AND, so Not(Or(a, b)) renders NOT (a AND b) instead of NOT (a OR b)")
+		}
+		return true
+	})
+	if n == 0 {
+		r.OK(f.Name(), "no unwrapping", f.Body.Pos(), "clause.Not keeps its arguments as given")
+	}
+}
+
+// C03.lookup-order: rows are scanned back into fields by resolving each result column through
+// Schema.LookUpField, while Create takes the column of a field from FieldsByDBName.  A name that is both the
+// column of one field and the Go name of another must therefore resolve as a COLUMN first.  Decided on the CFG
+// of LookUpField: the FieldsByName lookup is not reachable before the FieldsByDBName lookup.
+func checkC03LookupOrder(c *Ctx) {
+	p := c.P
+	r := c.Rule("C03.lookup-order", "Schema.LookUpField resolves a name as a column (FieldsByDBName) before it tries Go field names", 1)
+	f := p.MethodDecl(pkgSchema, "Schema", "LookUpField")
+	c.Touch(f)
+	info := f.Pkg.TypesInfo
+	schemaT := p.Named(pkgSchema, "Schema")
+	byDB, byName := p.Field(schemaT, "FieldsByDBName"), p.Field(schemaT, "FieldsByName")
+	var dbIx, nameIx *ast.IndexExpr
+	ast.Inspect(f.Body, func(n ast.Node) bool {
+		if ix, ok := n.(*ast.IndexExpr); ok {
+			if fieldSel(info, ix.X, byDB) && dbIx == nil {
+				dbIx = ix
+			}
+			if fieldSel(info, ix.X, byName) && nameIx == nil {
+				nameIx = ix
+			}
+		}
+		return true
+	})
+	if dbIx == nil {
+		r.Bad(f.Name(), "column lookup", f.Body.Pos(), "LookUpField no longer consults FieldsByDBName")
+		return
+	}
+	if nameIx == nil {
+		r.OK(f.Name(), "column lookup only", dbIx.Pos(), "no Go-name lookup")
+		return
+	}
+	gs := p.Guards(f, nil)
+	nameFirst := gs.Reaches(nameIx.Pos(), func(n ast.Node) bool { return containsNode(n, dbIx) })
+	dbFirst := gs.Reaches(dbIx.Pos(), func(n ast.Node) bool { return containsNode(n, nameIx) })
+	r.Check(dbFirst && !nameFirst, f.Name(), "column names before Go names", nameIx.Pos(), "FieldsByDBName is consulted first", "LookUpField tries the Go field names before the column names: a result column whose name equals another field's Go name is scanned into that other field (Create stored it by column name)")
 }
